@@ -46,7 +46,7 @@ COMPONENTS = {"real": ["UDPEndpoint.datagram_received", "Endpoint.notify_listene
               "stub": ["UDP/IP (SimNet)", "wall clock", "OS RNG"]}
 ASSUMPTIONS = ["the native ipv8_rust_tunnels.Endpoint is not covered (PythonCryptoEndpoint is what runs)"]
 REACH = ["inj:prefix", "inj:msgid", "inj:short", "inj:lenrewrite", "inj:lenbump", "inj:cell", "inj:keyed_cell", "inj:random", "reached_handler",
-         "direct_decode", "direct_decode_accepted", "codec_classes", "statistics_endpoint_listening",
+         "direct_decode", "direct_decode_accepted", "codec_classes", "statistics_endpoint_listening", "endpoint_wrapped_in_tunnel_endpoint",
          "cell_branch_circuit", "cell_branch_exit", "decode_exact_end", "snapshot_truncations"]
 
 SINGLE = ["community", "discovery", "dhtdiscovery", "hidden", "attestation", "identity", "pex"]
@@ -58,7 +58,8 @@ def cases(tier: str, base_seed: int):  # noqa: ANN201
     yield {"scenario": "codec", "seed": base_seed, "knobs": {}, "per_class": 3}
     for victim in (0, 1, 2, 3):
         n += 1
-        yield {"scenario": "multi", "victim": victim, "seed": base_seed + n, "knobs": {}, "stride": stride}
+        yield {"scenario": "multi", "victim": victim, "seed": base_seed + n, "knobs": {}, "stride": stride,
+               "ep_kind": "tunnel" if victim % 2 else "udp"}
     for scn in SINGLE:
         n += 1
         yield {"scenario": scn, "victim": 0, "seed": base_seed + n, "knobs": {}, "stride": stride}
@@ -70,6 +71,7 @@ def cases(tier: str, base_seed: int):  # noqa: ANN201
             continue
         scn = rng.choice(["multi", "multi", *SINGLE])
         yield {"scenario": scn, "victim": rng.randrange(2 if SCENARIOS[scn].n_nodes == 2 else 3), "seed": seed,
+               "ep_kind": rng.choice(["udp", "udp", "tunnel"]),
                "knobs": {"lat_jit": rng.choice([0.0, 0.02]), "dup": rng.choice([0.0, 0.05])}, "stride": rng.choice([2, 3, 5])}
 
 
@@ -193,6 +195,8 @@ def execute(case: dict) -> dict:  # noqa: C901, PLR0915
     world, net, loop = c.world, c.net, c.loop
     scn = SCENARIOS[case["scenario"]]
     rng = world.stream("injector")
+    if case.get("ep_kind") == "tunnel" and case["scenario"] == "multi":
+        world.probe("endpoint_wrapped_in_tunnel_endpoint")
     stride = case.get("stride", 3)
     captured: dict = {}           # (prefix, msgid, label) -> datagram, as delivered to the victim
     cur = {"inj": None}           # injected datagram now being delivered: dict
